@@ -353,14 +353,7 @@ func c12RunInner(c c12Case) (classes []string, nontrivial bool, err error) {
 	reg.chunk = 256
 	undo := frInstall(reg)
 	defer undo()
-	lic := frBlob{Data: []byte("LICENSE A"), MediaType: "application/vnd.ollama.image.license"}
-	lic.Digest = frDigest(lic.Data)
-	for i, key := range []string{"library/foo:latest", "library/bar:latest", "library/baz:latest", "ns1/foo:latest", "ns1/bar:v1", "ns1/baz:latest", "other/foo:latest"} {
-		g := c04GGUFs[i%len(c04GGUFs)]
-		cfg := []byte(fmt.Sprintf(`{"model_format":"gguf","model_family":"llama","model_families":["llama"],"model_type":"1","file_type":"F32","architecture":"amd64","os":"linux","rootfs":{"type":"layers","diff_ids":["%d"]}}`, i%2))
-		reg.publish(key, &frModel{Layers: []frBlob{{Digest: frDigest(g), Data: g, MediaType: "application/vnd.ollama.image.model"}, lic},
-			Config: &frBlob{Digest: frDigest(cfg), Data: cfg, MediaType: "application/vnd.docker.container.image.v1+json"}})
-	}
+	c12Library(reg)
 	var s Server
 	h, herr := s.GenerateRoutes(nil)
 	if herr != nil {
@@ -554,6 +547,18 @@ func c12RunInner(c c12Case) (classes []string, nontrivial bool, err error) {
 	return c12Classes(cls), nontrivial, nil
 }
 
+// c12Library publishes the small model library every C12 registry serves.
+func c12Library(reg *frRegistry) {
+	lic := frBlob{Data: []byte("LICENSE A"), MediaType: "application/vnd.ollama.image.license"}
+	lic.Digest = frDigest(lic.Data)
+	for i, key := range []string{"library/foo:latest", "library/bar:latest", "library/baz:latest", "ns1/foo:latest", "ns1/bar:v1", "ns1/baz:latest", "other/foo:latest", "h.test/ns1/foo:latest"} {
+		g := c04GGUFs[i%len(c04GGUFs)]
+		cfg := []byte(fmt.Sprintf(`{"model_format":"gguf","model_family":"llama","model_families":["llama"],"model_type":"1","file_type":"F32","architecture":"amd64","os":"linux","rootfs":{"type":"layers","diff_ids":["%d"]}}`, i%2))
+		reg.publish(strings.TrimPrefix(key, "h.test/"), &frModel{Layers: []frBlob{{Digest: frDigest(g), Data: g, MediaType: "application/vnd.ollama.image.model"}, lic},
+			Config: &frBlob{Digest: frDigest(cfg), Data: cfg, MediaType: "application/vnd.docker.container.image.v1+json"}})
+	}
+}
+
 func c12Classes(m map[string]bool) []string {
 	var out []string
 	for k := range m {
@@ -647,10 +652,10 @@ func TestC12Crash(t *testing.T) {
 var c12Syscalls = []string{"openat", "write", "pwrite64", "rename", "renameat", "renameat2", "unlink", "unlinkat", "mkdir", "mkdirat", "chmod", "fchmod", "fchmodat", "ftruncate", "close"}
 
 type c12SysCase struct {
-	NoPrune bool   `json:"noprune,omitempty"`
-	Prior  []c12Op `json:"prior"`
-	Op     c12Op   `json:"op"`
-	Points []int   `json:"points"` // per-mille positions within each system call's range
+	NoPrune bool    `json:"noprune,omitempty"`
+	Prior   []c12Op `json:"prior"`
+	Op      c12Op   `json:"op"`
+	Points  []int   `json:"points"` // per-mille positions within each system call's range
 }
 
 func c12SysGen(t *rapid.T) c12SysCase {
@@ -677,8 +682,14 @@ func c12SysGen(t *rapid.T) c12SysCase {
 		return rapid.IntRange(0, len(c12Names)-1).Draw(t, label)
 	}
 	o := c12Op{GGUF: rapid.IntRange(0, 2).Draw(t, "op_gguf"), Sys: rapid.IntRange(0, 2).Draw(t, "op_sys"), Stream: rapid.Bool().Draw(t, "op_stream")}
-	o.Kind = rapid.SampledFrom([]string{"blob", "create", "create", "createfrom", "copy", "copy", "delete", "delete"}).Draw(t, "op_kind")
+	o.Kind = rapid.SampledFrom([]string{"blob", "create", "create", "createfrom", "copy", "copy", "delete", "delete", "repull", "repull"}).Draw(t, "op_kind")
 	switch o.Kind {
+	case "repull":
+		// pull again a model that was pulled before (prior state): only the manifest request needs the registry, every
+		// blob is a cache hit, so the child is fast; the crash window is the rewrite of the manifest
+		o.Kind = "pull"
+		o.Name = rapid.SampledFrom([]int{0, 1, 2, 4, 5, 6}).Draw(t, "op_pull_name")
+		c.Prior = append(c.Prior, c12Op{Kind: "pull", Name: o.Name, Stream: true})
 	case "create":
 		o.Name = anyName("op_name")
 	case "createfrom":
@@ -705,8 +716,13 @@ func TestC12Child(t *testing.T) {
 		t.Fatal(err)
 	}
 	c04Init()
+	frHome()
 	gin.SetMode(gin.TestMode)
 	gin.DefaultWriter, gin.DefaultErrorWriter = io.Discard, io.Discard
+	reg := frNewRegistry() // only a re-pull of a model that is already complete locally reaches it (manifest request)
+	reg.foldNames = true
+	c12Library(reg)
+	defer frInstall(reg)()
 	var s Server
 	h, err := s.GenerateRoutes(nil)
 	if err != nil {
@@ -773,9 +789,13 @@ func c12SysRun(t *testing.T, c c12SysCase) (classes []string, nontrivial bool, e
 			}
 		}()
 		synctest.Test(t, func(*testing.T) {
+			reg := frNewRegistry()
+			reg.foldNames = true
+			c12Library(reg)
+			defer frInstall(reg)()
 			var s Server
 			h, _ := s.GenerateRoutes(nil)
-			f(&c12World{h: h, crashAt: -1})
+			f(&c12World{h: h, reg: reg, crashAt: -1})
 		})
 	}
 	prior := filepath.Join(base, "prior")
@@ -792,6 +812,10 @@ func c12SysRun(t *testing.T, c c12SysCase) (classes []string, nontrivial bool, e
 			}
 			w.request(context.Background(), o)
 			synctest.Wait()
+			if o.Kind == "pull" {
+				time.Sleep(3 * time.Minute)
+				synctest.Wait()
+			}
 		}
 		// the blob a create refers to is uploaded by a separate, earlier API call
 		if c.Op.Kind == "create" {
